@@ -20,6 +20,14 @@ class C14(DevProp):
             "(exhaustive for length <= 3) with releases/re-presses and other keys interleaved, plus random alternating histories; "
             "non-trivial = distinct cases in which the implementation raised the signal at least once")
 
+    def perturb(self, case, res):
+        # falsify: a termination signal on a step that did not raise one
+        for st in res["steps"]:
+            if st["sigs"] == 0:
+                st["sigs"] = 1
+                return res
+        return None
+
     def gen(self, rng, tier):
         cases = []
         n_cfg = 30 if tier == "quick" else 400
